@@ -116,7 +116,7 @@ fn grid_item(i: u64, chunks: u64, acc: &mut Acc) {
         return;
     }
     let size = grid_size(mode);
-    let mut st = H263State::new(options(mode, false));
+    let mut st = H263State::new(options_scal(mode, q % 2 == 0));
     let reference = match grey_reference(&mut st, mode, version) {
         Ok(r) => r,
         Err(e) => {
@@ -195,7 +195,7 @@ fn intradc_suite() -> SuiteReport {
             for code in 0..=255u8 {
                 for in_p in [false, true] {
                     let size = grid_size(mode);
-                    let mut st = H263State::new(options(mode, false));
+                    let mut st = H263State::new(options_scal(mode, code % 2 == 1));
                     let reference = match grey_reference(&mut st, mode, version) {
                         Ok(r) => r,
                         Err(e) => {
@@ -258,7 +258,7 @@ fn dquant_suite() -> SuiteReport {
                 for dq in [-2i8, -1, 1, 2] {
                     for inter in [false, true] {
                         let size = grid_size(mode);
-                        let mut st = H263State::new(options(mode, false));
+                        let mut st = H263State::new(options_scal(mode, pq % 2 == 1));
                         let reference = match grey_reference(&mut st, mode, version) {
                             Ok(r) => r,
                             Err(e) => {
